@@ -67,6 +67,18 @@ type InlineTyped struct {
 	B map[string]bool   `struct:",inline"`
 }
 
+// Wide has many fields in front of struct-typed fields, so that a field
+// pointer computed from the wrong base lands outside the value.
+type Wide struct {
+	A, B, C, D, E, F, G, H string
+	N1, N2, N3, N4         int64
+	Mid                    Inner
+	L1, L2                 []string
+	M1                     map[string]string
+	Last                   Simple
+	Tail                   Inner
+}
+
 type InlineIfc struct {
 	A string
 	I interface{} `struct:",inline"`
@@ -154,6 +166,9 @@ type TypeEntry struct {
 	NewTarget func() (ptr interface{}, sentinelsIntact func() bool, value func() interface{})
 	// Gen draws a value of the type (maps have at most one entry).
 	Gen func(c *simkit.Choices) interface{}
+	// Set stores a value of the type into a target obtained from NewTarget
+	// (a target that is re-used: non-nil slices, maps, pointers).
+	Set func(ptr interface{}, v interface{})
 	// Supported is false for types the library documents as unsupported
 	// targets (SetTarget must refuse them).
 	Supported bool
@@ -185,9 +200,9 @@ func PickType(c *simkit.Choices, forUnfold, needStrings, allowUnsupported bool) 
 }
 
 type guarded[T any] struct {
-	pre  [4]uint64
+	pre  [64]uint64
 	v    T
-	post [4]uint64
+	post [64]uint64
 }
 
 const sentinel = 0x5afe5afe5afe5afe
@@ -209,6 +224,7 @@ func mk[T any](name string, hasStr bool, gen func(c *simkit.Choices) T) TypeEntr
 			}, func() interface{} { return g.v }
 		},
 		Gen: func(c *simkit.Choices) interface{} { return gen(c) },
+		Set: func(ptr interface{}, v interface{}) { *(ptr.(*T)) = v.(T) },
 	}
 }
 
@@ -404,6 +420,13 @@ var Catalogue = []TypeEntry{
 	foldOnly(mk("InlineFolder", true, func(c *simkit.Choices) InlineFolder {
 		return InlineFolder{A: genStr(c), T: Labels(genMap(c, genStr)), Z: genSlice(c, genStr)}
 	})),
+	mk("Wide", true, func(c *simkit.Choices) Wide {
+		return Wide{A: genStr(c), D: genStr(c), H: genStr(c), N1: genI(c), N4: genI(c), Mid: genInner(c), L1: genSlice(c, genStr),
+			M1: genMap(c, genStr), Last: genSimple(c), Tail: genInner(c)}
+	}),
+	mk("[]Wide", true, func(c *simkit.Choices) []Wide {
+		return genSlice(c, func(c *simkit.Choices) Wide { return Wide{B: genStr(c), Mid: genInner(c), Last: genSimple(c)} })
+	}),
 	mk("OmitAll", true, func(c *simkit.Choices) OmitAll {
 		o := OmitAll{B: c.Bool(), F: float32(c.N(100)) / 4}
 		if c.Bool() {
